@@ -34,7 +34,12 @@ var Kinds = []string{KSlice, KNoReset, KDisparity, KValFunc, KValFuncNoReset, KV
 var ValueKinds = []string{KValFunc, KValFuncNoReset, KValSlice, KValCmp}
 
 // CanReset tells whether an iterator of the kind has a Reset method.
-func CanReset(kind string) bool { return kind != KNoReset && kind != KValFuncNoReset }
+func CanReset(kind string) bool {
+	if z := zoo[kind]; z != nil { // types.go: the zoo of types that share their printed name
+		return z.Reset
+	}
+	return kind != KNoReset && kind != KValFuncNoReset
+}
 
 // IsValueKind tells whether the iterator of the kind is a struct value (not a pointer).
 func IsValueKind(kind string) bool {
@@ -412,6 +417,9 @@ func (h handle) Reset() error { h.st.pos = 0; return nil }
 func (h handle) Close() error { return nil }
 
 func source(kind string, s []int) iterable.Iterator[int] {
+	if z := zoo[kind]; z != nil {
+		return z.mk(s)
+	}
 	switch kind {
 	case KValFunc:
 		return newFnIter(s)
